@@ -38,6 +38,12 @@ Feats(hA, hB, ev) ==
   \cup (IF HasExtT(hA, 51) THEN {"key-share"} ELSE {})
   \cup (IF HasExtT(hA, 65037) THEN {"ech"} ELSE {})
   \cup (IF HasExtT(hA, 65037) /\ ECHOuterOK(ExtBody(hA, 65037)) /\ RdU16(ExtBody(hA, 65037), 7) # 32 THEN {"ech-enc-not-32"} ELSE {})
+  \cup (IF HasExtT(hA, 51) /\ IsVec16(ExtBody(hA, 51)) /\ SharesOK(ExtBody(hA, 51), 3)
+           /\ \E sh \in Range(ParseShares(ExtBody(hA, 51), 3)) : IsGrease16(sh.group) /\ sh.n # 1 THEN {"grease-share-not-1"} ELSE {})
+  \cup (IF \E i \in DOMAIN hA.exts : IsGrease16(hA.exts[i].type) /\ Len(hA.exts[i].body) > 1 THEN {"grease-ext-body"} ELSE {})
+  \cup (IF \E i \in DOMAIN hA.exts : IsGrease16(hA.exts[i].type) /\ Len(hA.exts[i].body) # 1
+                                       /\ \E j \in 1..(i-1) : IsGrease16(hA.exts[j].type) THEN {"grease-ext2-body"} ELSE {})
+  \cup (IF Len(hA.sid) # 32 THEN {"sid-not-32"} ELSE {})
   \cup (IF HasExtT(hA, 41) THEN {"psk"} ELSE {})
   \cup (IF HasExtT(hA, 41) /\ Len(ev.b) > 0 /\ ~HasExtT(hB, 41) THEN {"psk-dropped"} ELSE {})
   \cup (IF HasExtT(hA, 35) /\ Len(ExtBody(hA, 35)) > 0 THEN {"ticket"} ELSE {})
